@@ -29,6 +29,10 @@ CLASS_NAMES = {
     "5": "c02:abi-cast-word-wider-than-object",
 }
 NO_OP_KINDS = ("default", "self_ref_literal", "alias_assign")
+# Flip to True together with the tag-width fix (/verif/.cache/prompts/C02-fix.diff) in /repo: the model is then
+# evaluated with tag_width = 1 (driver fields hi1/class1; Coq: C02_fixed_tag_variant_to_enum).
+TAG_FIXED = True   # fix 38e2441 committed in /repo
+TW = "1" if TAG_FIXED else "8"
 
 
 def vl(ty):
@@ -46,7 +50,7 @@ def op_line(b):
     S, R = E.size_of(ty), E.stride(ty)
     st = 1 if cont in ("lit", "local") else 0
     if kind in ("arg", "alias_ret") or src in ("literal", "payload_var"):
-        ref_hi = E._literal_write_hi(ty, b["new"], False)[0]
+        ref_hi = E._literal_write_hi(ty, b["new"], TAG_FIXED)[0]
         k = ty["k"]
         val = b["new"]
         if k == "enum":
@@ -110,7 +114,7 @@ def run(tier, seed):
     kinds_hist = {}
     if drv and capy:
         rng = E.Rng(fl.rng.fork("blocks").next())
-        nprog = 24 if tier == "quick" else 320
+        nprog = 60 if tier == "quick" else 600
         per = 12
         progs = [E.gen_blocks(rng, per) for _ in range(nprog)]
         blocks = [b for p in progs for b in p]
@@ -129,7 +133,7 @@ def run(tier, seed):
             m = parse_model(next(it))
             model_of[idx] = m
             S = E.size_of(b["ty"])
-            if m.get("hi8") is None or max(int(m["hi8"]), S) != max(o[1], S):
+            if m.get("hi" + TW) is None or max(int(m["hi" + TW]), S) != max(o[1], S):
                 diffs += 1
                 if first is None:
                     first = {"block": E.describe(b), "kind": b["kind"], "op": o[0], "model": m, "reference_hi": o[1]}
@@ -143,6 +147,9 @@ def run(tier, seed):
                 wd = os.path.join(root, "p%d" % k)
                 os.makedirs(wd, exist_ok=True)
                 r = E.run_program(capy, prog, wd)
+                if r["status"] == "capy-failed" and "timeout" in str(r.get("detail")):
+                    # a loaded machine, not a verdict: one patient retry
+                    r = E.run_program(capy, prog, wd, timeout=600)
                 shutil.rmtree(wd, ignore_errors=True)
                 return prog, r
             results = C.parallel_map(one, list(range(len(progs))))
@@ -158,6 +165,8 @@ def run(tier, seed):
                 wd = os.path.join(root, "s%d_%d" % (k, j))
                 os.makedirs(wd, exist_ok=True)
                 r = E.run_program(capy, prog, wd)
+                if r["status"] == "capy-failed" and "timeout" in str(r.get("detail")):
+                    r = E.run_program(capy, prog, wd, timeout=600)
                 shutil.rmtree(wd, ignore_errors=True)
                 return r
             single_res = dict(zip(singles, C.parallel_map(one_block, singles)))
@@ -180,11 +189,13 @@ def run(tier, seed):
                         crashed = False
                         failed_build = r["status"] == "capy-failed"
                     if failed_build:
-                        fl.broken.append({"what": "generated program rejected by capy", "detail": str(r.get("detail"))[-800:]})
+                        det = single_res[(k, j)].get("detail") if (k, j) in single_res else r.get("detail")
+                        fl.broken.append({"what": "generated program rejected by capy", "shape": E.describe(b),
+                                          "kind": b["kind"], "detail": str(det)[-800:]})
                         continue
-                    pred = E.predict_clobber(b)
+                    pred = E.predict_clobber(b, d1_fixed=TAG_FIXED)
                     m = model_of.get(gidx, {})
-                    cls = CLASS_NAMES.get(m.get("class8", "-"))
+                    cls = CLASS_NAMES.get(m.get("class" + TW, "-"))
                     if b["kind"] == "self_ref_literal":
                         cls = "c02:assign-literal-reading-destination"
                     if pred["post"] or pred["src_post"] or pred["pre"] or pred["n2"] or pred["value_wrong"]:
@@ -203,9 +214,9 @@ def run(tier, seed):
                                                                       for kk, vv in pred.items()},
                                "model": m, "crashed": crashed,
                                "capy": E.build_program([b])["capy"]}
-                    enum_stack_effect = contains_enum(b["ty"]) and (crashed or val_unexpected)
+                    enum_stack_effect = (not TAG_FIXED) and contains_enum(b["ty"]) and (crashed or val_unexpected)
                     if unpredicted or (val_unexpected and not enum_stack_effect) or \
-                            (crashed and not (enum_stack_effect or m.get("class8") == "1")):
+                            (crashed and not (enum_stack_effect or m.get("class" + TW) == "1")):
                         # something changed that the footprint model does not account for
                         ediffs += 1
                         if efirst is None:
